@@ -317,6 +317,10 @@ func (g *gen) rangeNode(scope []string) *sx.Node {
 func (g *gen) role(depth int, scope []string, nameBase, itVar string, allowIter bool) *sx.Node {
 	g.budget--
 	g.nroles++
+	if depth < 3 && g.budget > 0 && g.r.P(1, 9) {
+		// an include role: also as an iterator's template (allowIter false), also inside a document
+		return g.include(depth, scope, nameBase, itVar)
+	}
 	k := g.r.N(10)
 	switch {
 	case allowIter && depth < 3 && k < 3:
@@ -369,19 +373,7 @@ func genCase(r *rng.R) fw.Case {
 	for i := 0; i < cnt && g.budget > 0; i++ {
 		root.Add(g.role(1, cs, fmt.Sprintf("r%d", i), "", true))
 	}
-	st := stats(root)
-	if st.iters > 0 {
-		tags = append(tags, "iterator")
-	}
-	if st.iterExprEnabled > 0 {
-		tags = append(tags, "iterator-template-enabled-expr")
-	}
-	if st.enabledTags > 0 {
-		tags = append(tags, "enabled-expr")
-	}
-	tags = append(tags, shapeTags(root)...)
-	tags = append(tags, fmt.Sprintf("depth=%d", st.depth), fmt.Sprintf("roles~%d", (st.roles+2)/3*3))
-	return fw.Case{Input: root.String(), Tags: tags}
+	return fw.Case{Input: root.String(), Tags: append(tags, caseTags(root)...)}
 }
 
 type tstats struct{ roles, iters, enabledTags, iterExprEnabled, depth int }
@@ -411,6 +403,18 @@ func stats(root *sx.Node) tstats {
 			for i := 2; i < n.Len(); i++ {
 				walk(n.At(i), d+1, false)
 			}
+		case "N":
+			// the include role is ONE role (the loaded root under the site's name); each document's root
+			// header counts as the role it may become
+			for _, doc := range docsOf(n) {
+				st.roles++
+				if hasTag(doc.At(2).At(1)) {
+					st.enabledTags++
+				}
+				for _, k := range kidsOfDoc(doc) {
+					walk(k, d+1, false)
+				}
+			}
 		}
 		st.roles++
 		if hasTag(n.At(1).At(1)) {
@@ -429,7 +433,9 @@ func generate(tier string, r *rng.R) []fw.Case {
 	if tier == "thorough" {
 		n = 30000
 	}
-	cs := make([]fw.Case, 0, n+n/5)
+	cs := make([]fw.Case, 0, n+n/5+n/6+16)
+	// fixed scenarios around include roles (include.go), always run
+	cs = append(cs, fixedIncludeCases()...)
 	for i := 0; i < n; i++ {
 		cs = append(cs, genCase(r.Fork()))
 	}
@@ -437,6 +443,11 @@ func generate(tier string, r *rng.R) []fw.Case {
 	// range depends on the enclosing iteration (see nested.go)
 	for i := 0; i < n/5; i++ {
 		cs = append(cs, genNestedCase(r.Fork()))
+	}
+	// a dedicated stream: include roles, mostly under an iterator, the included tree and the include
+	// expression referring to the iteration variable (see include.go)
+	for i := 0; i < n/6; i++ {
+		cs = append(cs, genInclCase(r.Fork()))
 	}
 	return cs
 }
@@ -499,6 +510,38 @@ func roleVariants(n *sx.Node) []*sx.Node {
 			for _, v := range roleVariants(n.At(i)) {
 				out = append(out, withAt(n, i, v))
 			}
+		}
+		for _, hv := range hdrVariants(n.At(1)) {
+			out = append(out, withAt(n, 1, hv))
+		}
+	case "N":
+		// an include role: replaced by a document's root as a plain aggregator under the site's header
+		// name, documents dropped, documents shrunk, a literal expression, a smaller site header
+		for i := 3; i < n.Len(); i++ {
+			d := n.At(i)
+			a := sx.L(sx.A("A"), withAt(d.At(2), 0, n.At(1).At(0)))
+			a.Add(kidsOfDoc(d)...)
+			out = append(out, a)
+		}
+		for i := 3; i < n.Len(); i++ {
+			out = append(out, without(n, i))
+		}
+		for i := 3; i < n.Len(); i++ {
+			d := n.At(i)
+			for j := 3; j < d.Len(); j++ {
+				out = append(out, withAt(n, i, without(d, j)))
+			}
+			for j := 3; j < d.Len(); j++ {
+				for _, v := range roleVariants(d.At(j)) {
+					out = append(out, withAt(n, i, withAt(d, j, v)))
+				}
+			}
+			for _, hv := range hdrVariants(d.At(2)) {
+				out = append(out, withAt(n, i, withAt(d, 2, hv)))
+			}
+		}
+		if hasTag(n.At(2)) && n.Len() > 3 {
+			out = append(out, withAt(n, 2, lit(n.At(3).At(1).Str())))
 		}
 		for _, hv := range hdrVariants(n.At(1)) {
 			out = append(out, withAt(n, 1, hv))
